@@ -122,7 +122,7 @@ structure Write where
 
 /-- `WriteSCTP` accepted the message: it returned `(len, nil)` for a non-empty payload (the fragments were queued) -/
 def accepts (s : Sender.St) (si : BitVec 16) (ppi : BitVec 32) (len : Nat) : Bool :=
-  len != 0 && (Sender.write s si ppi len).2.2 == .none
+  len != 0 && (match (Sender.write s si ppi len).2.2 with | .none => true | _ => false)
 
 def writeOut (P : Params) (s : St) : Op → List Write
   | .write si ppi => if accepts s.snd si ppi (P.pay s.snd.nextMsg).length then [⟨si, ppi, s.snd.nextMsg⟩] else []
